@@ -55,9 +55,10 @@ Definition pop (site : N) (o : tape_state) : option (option N) * tape_state :=
   | [] => (None, mkTape [] (t_sel o) true)
   end.
 
+(* a recorded number is a u64 (BigNum); anything else is not an answer the implementation can have given *)
 Definition pop_num (site : N) (o : tape_state) : result N * tape_state :=
   match pop site o with
-  | (Some (Some v), o') => (Ok v, o')
+  | (Some (Some v), o') => if v <? two64 then (Ok v, o') else (Err, mkTape (t_tape o') (t_sel o') true)
   | (Some None, o') => (Err, o')
   | (None, o') => (Err, o')
   end.
